@@ -300,7 +300,7 @@ def rule_h3(ck, prog):
                 ck.holds("C20-H3", st, K.loc(f, node), "`%s` inside %s" % (node.src[:50], f.name), nontrivial=(n < 4))
             else:
                 ck.violated("C20-H3", st, K.loc(f, node), "heap bookkeeping field written outside scpiheap_*: `%s`" % node.src)
-    allowed = {"scpiheap_strndup": {"SCPI_ErrorAddInternal"}, "scpiheap_free": {"SCPI_ErrorAddInternal", "SCPI_ErrorClear", "SCPI_SystemErrorNextQ"},
+    allowed = {"scpiheap_strndup": {"SCPI_ErrorAddInternal", "SCPI_ErrorPushEx"}, "scpiheap_free": {"SCPI_ErrorAddInternal", "SCPI_ErrorClear", "SCPI_SystemErrorNextQ"},
                "scpiheap_get_parts": {"SCPI_ResultError", "scpiheap_free"}, "scpiheap_init": {"SCPI_InitHeap"}}
     for callee, okc in allowed.items():
         callers = {g.name for g, c in prog.callers(callee)}
